@@ -151,6 +151,44 @@ func init() {
 			}
 			return ex.equals(types.Typ[types.String], args[0], peerIDOfKey(ks.id))
 		})
+		// peer.ID text form: model = "1" + lowercase hex (injective); Decode is its inverse
+		p.reg("("+lp+"/peer.ID).String", func(ex *Exec, fr *Frame, args []Value) Value {
+			bs := strBytes(args[0])
+			out := []*Term{byteConst('1')}
+			hex := func(n *Term) *Term {
+				return mkIte(mkCmp(OpULt, n, byteConst(10)), mkBin(OpAdd, n, byteConst('0')), mkBin(OpAdd, n, byteConst('a'-10)))
+			}
+			for _, b := range bs {
+				out = append(out, hex(mkBin(OpLShr, b, byteConst(4))), hex(mkBin(OpBAnd, b, byteConst(15))))
+			}
+			return mkStr(out)
+		})
+		p.reg(lp+"/peer.Decode", func(ex *Exec, fr *Frame, args []Value) Value {
+			bs := strBytes(args[0])
+			bad := func() Value { return Tuple{"", ex.newErrorString("model: failed to parse peer ID")} }
+			if len(bs) < 1 || len(bs)%2 != 1 {
+				return bad()
+			}
+			if !ex.branch(mkEq(bs[0], byteConst('1')), "peer-decode-prefix") {
+				return bad()
+			}
+			var raw []*Term
+			for i := 1; i < len(bs); i += 2 {
+				var nib [2]*Term
+				for j := 0; j < 2; j++ {
+					c := bs[i+j]
+					isDigit := mkAnd(mkCmp(OpULe, byteConst('0'), c), mkCmp(OpULe, c, byteConst('9')))
+					isAF := mkAnd(mkCmp(OpULe, byteConst('a'), c), mkCmp(OpULe, c, byteConst('f')))
+					if !ex.branch(mkOr(isDigit, isAF), "peer-decode-hex") {
+						return bad()
+					}
+					nib[j] = mkIte(isDigit, mkBin(OpSub, c, byteConst('0')), mkBin(OpSub, c, byteConst('a'-10)))
+				}
+				raw = append(raw, mkBin(OpBOr, mkBin(OpShl, nib[0], byteConst(4)), nib[1]))
+			}
+			f := ex.p.funcByName(lp+"/peer", "IDFromBytes")
+			return ex.callSSA(fr, fr.callPos, f, []Value{termsToValues(raw)}, nil)
+		})
 		// buffer pool
 		p.reg("github.com/libp2p/go-buffer-pool.Get", func(ex *Exec, fr *Frame, args []Value) Value {
 			n := argInt(ex, args[0], "pool.Get")
